@@ -23,7 +23,7 @@ def set_order(perm):
         see.ORDER['key'] = lambda x: pos.get(x, len(pos)) if not isinstance(x, tuple) else tuple(pos.get(y, len(pos)) for y in x)
 
 
-def build_graph(n, fixed, perm, fold, mods=GRAPH_MODS, bounds=None, present=None):
+def build_graph(n, fixed, perm, fold, mods=GRAPH_MODS, bounds=None, present=None, u=None):
     import pyModelChecking.graph as G
     names = [x for x in enames(n) if x not in fixed]
     if fold:
@@ -36,26 +36,28 @@ def build_graph(n, fixed, perm, fold, mods=GRAPH_MODS, bounds=None, present=None
     set_order(perm)
     order = list(perm) if perm is not None else list(range(n))
     e = ematrix(n, fixed)
-    E = GSeq([(e[i][j], (i, j)) for i in order for j in order])
-    g = ctx.call(G.DiGraph, [], {'V': order, 'E': E})
+    u = list(u) if u else list(range(n))
+    E = GSeq([(e[i][j], (u[i], u[j])) for i in order for j in order])
+    g = ctx.call(G.DiGraph, [], {'V': [u[i] for i in order], 'E': E})
     return vm, ctx, fr, e, g
 
 
 # ------------------------------------------------------------------ C12
-def scc_task(n, perm, fold, fixed, audit=True):
+def scc_task(n, perm, fold, fixed, audit=True, u=None):
     """all graphs on n nodes (minus forked bits): compute_SCCs == mutual reachability classes"""
     import pyModelChecking.graph as G
     see.reset()
     t0 = time.time()
-    vm, ctx, fr, e, g = build_graph(n, fixed, perm, fold, bounds={'compute_SCCs': n * n + n})
+    u = list(u) if u else list(range(n))          # node values
+    vm, ctx, fr, e, g = build_graph(n, fixed, perm, fold, bounds={'compute_SCCs': n * n + n}, u=u)
     out = ctx.call(G.compute_SCCs, [g], {})
     t1 = time.time()
     comps = []
     for (gy, lst) in out.entries:
-        mem = [b_and(gy, b_or(*[b_and(ctx.in_len(lst, k), ctx.eq(lst.slots[k], i)) for k in range(lst.hi)])) for i in range(n)]
+        mem = [b_and(gy, b_or(*[b_and(ctx.in_len(lst, k), ctx.eq(lst.slots[k], u[i])) for k in range(lst.hi)])) for i in range(n)]
         dup = b_or(*[b_and(gy, ctx.in_len(lst, k), ctx.in_len(lst, l), ctx.eq(lst.slots[k], lst.slots[l]))
                      for k in range(lst.hi) for l in range(k + 1, lst.hi)])
-        foreign = b_or(*[b_and(gy, ctx.in_len(lst, k), b_not(b_or(*[ctx.eq(lst.slots[k], i) for i in range(n)])))
+        foreign = b_or(*[b_and(gy, ctx.in_len(lst, k), b_not(b_or(*[ctx.eq(lst.slots[k], u[i]) for i in range(n)])))
                          for k in range(lst.hi)])
         comps.append((mem, dup, foreign))
     bad = []
@@ -75,7 +77,7 @@ def scc_task(n, perm, fold, fixed, audit=True):
     reach = oracles.closure(e2, n)
     want = [b_and(reach[i][j], reach[j][i]) for (i, j) in pairs]
     r = d.differ(same, want, bad)
-    res = dict(kind='scc', n=n, perm=perm, fold=fold, fixed=len(fixed), verdict=r, encode_s=round(t1 - t0, 2), yields=len(out.entries),
+    res = dict(kind='scc', n=n, perm=perm, fold=fold, fixed=len(fixed), univ=(u if u != list(range(n)) else None), verdict=r, encode_s=round(t1 - t0, 2), yields=len(out.entries),
                exc=exc_kinds(fr), loops=loops, encoded=encoded, unwind_open=len(vm.unwind))
     if r == 'sat':
         m = d.differ_model(same, want, bad)
@@ -101,10 +103,15 @@ class St(object):
     def __eq__(self, o): return self is o
     def __repr__(self): return 'St(%%d)' %% self.i
 plain = %(plain)r
-nodes = list(range(n)) if plain else [St(i, order.index(i)) for i in range(n)]
+univ = %(univ)r
+nodes = (list(univ) if univ else list(range(n))) if plain else [St(i, order.index(i)) for i in range(n)]
 G = DiGraph(V=[nodes[i] for i in order], E=[(nodes[i], nodes[j]) for (i, j) in E])
-idx = (lambda v: v) if plain else (lambda v: v.i)
-comps = [[idx(v) for v in c] for c in compute_SCCs(G)]
+idx = (lambda v: (univ.index(v) if univ else v)) if plain else (lambda v: v.i)
+try:
+    comps = [[idx(v) for v in c] for c in compute_SCCs(G)]
+except Exception as ex:
+    print('edges', E, 'order', order, 'nodes', nodes)
+    print('VIOLATION of C12: compute_SCCs raised %%s: %%s' %% (type(ex).__name__, ex)); sys.exit(1)
 reach = [[i == j or (i, j) in E for j in range(n)] for i in range(n)]
 for k in range(n):
     reach = [[reach[i][j] or (reach[i][k] and reach[k][j]) for j in range(n)] for i in range(n)]
@@ -127,7 +134,7 @@ def scc_replay(res):
     n, perm, m = res['n'], res['perm'] or list(range(res['n'])), res['model']
     E = [(i, j) for i in range(n) for j in range(n) if m.get('e_%d_%d' % (i, j))]
     for plain in ([True] if list(perm) == list(range(n)) else [False, True]):
-        body = SCC_REPLAY % dict(n=n, order=list(perm) if not plain else list(range(n)), E=E, plain=plain)
+        body = SCC_REPLAY % dict(n=n, order=list(perm) if not plain else list(range(n)), E=E, plain=plain, univ=res.get('univ'))
         path = write_replay('C12', body)
         ok, out = run_replay(path)
         if ok:
